@@ -914,6 +914,17 @@ impl Parser {
                             order_by_fields.push(actual_field);
                             order_by_directions.push(true);
                         }
+                        // a key may start with a sign or a bracket: `order by -size`, `order by (size + 1) * 2`
+                        Some(Lexem::ArithmeticOperator(_)) | Some(Lexem::Open) | Some(Lexem::CurlyOpen) => {
+                            self.drop_lexem();
+                            match self.parse_expr()? {
+                                Some(expr) => {
+                                    order_by_fields.push(expr);
+                                    order_by_directions.push(true);
+                                }
+                                None => return Err(String::from("Error parsing ORDER BY")),
+                            }
+                        }
                         Some(Lexem::DescendingOrder) => {
                             let cnt = order_by_directions.len();
                             if cnt == 0 {
